@@ -27,6 +27,7 @@ use crate::{
 	error::{suggest_object_fields, ErrorKind::*},
 	identity_hash,
 	operator::evaluate_add_op,
+	stack::check_depth,
 	val::{ArrValue, ThunkValue},
 	CcUnbound, MaybeUnbound, Result, Thunk, Unbound, Val,
 };
@@ -612,6 +613,9 @@ impl ObjValue {
 		result
 	}
 	fn get_idx_uncached(&self, key: IStr, core: CoreIdx) -> Result<Option<Val>> {
+		// Field evaluation nests on the native stack like a call does, count it
+		// towards the stack depth limit so that runaway recursion is reported.
+		let _depth = check_depth()?;
 		self.run_assertions()?;
 		let mut first_add = None;
 		let mut add_stack: Vec<Val> = Vec::new();
